@@ -85,7 +85,8 @@ func VerifMuxConnInfo(c *VerifMuxedConn) (addresses []netip.AddrPort, closed boo
 	defer c.mu.Unlock()
 
 	addresses = append(addresses, c.addresses...)
-	for pkt := c.bufTail; pkt != nil; pkt = pkt.next {
+	// bounded: a queue whose links have been corrupted into a cycle is reported as a (too long) queue, not walked for ever
+	for pkt := c.bufTail; pkt != nil && len(queued) < 64; pkt = pkt.next {
 		queued = append(queued, VerifMuxQueued{
 			Data: append([]byte{}, pkt.buf...), Src: pkt.sourceAddrPort, Addr: pkt.sourceAddr,
 		})
